@@ -83,6 +83,7 @@ type Node struct {
 	AuthClass string
 	AuthSteps int // number of AUTH_CHALLENGE rounds before AUTH_SUCCESS
 	// SystemIntercept, if set, sees every QUERY before the node's own system-table logic; true = handled.
+	StartupDelayNs  int64 // STARTUP is answered that much later (atomic; may be changed while the node serves)
 	RefuseNext      int32 // the next that many dials are refused (atomic)
 	Refused         int64 // dials refused that way (atomic)
 	SystemIntercept func(sc *ServerConn, req *Req) bool
@@ -451,6 +452,11 @@ func (sc *ServerConn) handleFrame(h cqlref.Header, raw, body []byte) {
 	sc.LastOp = h.Op
 	sc.mu.Unlock()
 
+	if h.Op == cqlref.OpStartup {
+		if d := atomic.LoadInt64(&n.StartupDelayNs); d > 0 {
+			time.Sleep(time.Duration(d))
+		}
+	}
 	if n.OnHandshake != nil && (h.Op == cqlref.OpOptions || h.Op == cqlref.OpStartup || h.Op == cqlref.OpAuthResponse || h.Op == cqlref.OpRegister) {
 		if n.OnHandshake(sc, h.Op) {
 			return
